@@ -6,7 +6,7 @@ import nets
 
 PID = "C14"
 THEOREMS = ["downstream_spec", "upstream_sum_spec", "fill_up_spec", "fill_down_pairs", "merge_fold_closed", "fill_down_spec", "window_down_spec",
-            "window_up_spec", "stream_distance_spec", "hand_spec", "floodplain_spec", "gen_upstream_sum_eq", "gen_fillnodata_upstream_eq", "gen_fillnodata_downstream_eq", "gen_hand_eq", "gen_stream_distance_eq", "gen_floodplains_eq"]
+            "window_up_spec", "stream_distance_spec", "hand_spec", "floodplain_spec", "gen_upstream_sum_eq", "gen_fillnodata_upstream_eq", "gen_fillnodata_downstream_eq", "gen_hand_eq", "gen_stream_distance_eq", "gen_floodplains_eq", "gen__window_cells"]
 RULE = ("loop-free closed graphs on n<=4 cells (n<=5 thorough) x small integer fields with nodata x every operator "
         "(downstream, upstream_sum, fillnodata up / down min,max,sum, window n=0..3 with and without stream-order "
         "restriction, moving average / median, stream distance in cells and metres on a 3-4-5 grid, HAND, floodplains "
